@@ -437,6 +437,20 @@ static void do_line(char *line)
 		dump(p ? 0 : -1);
 		return;
 	}
+	if (strcmp(w[0], "move") == 0 && n == 3) {
+		/* talloc_move(new_parent, &var): the caller's variable must be cleared iff the move worked */
+		void *var;
+		r = opt_ptr(w[1], &a); r2 = get_slot(w[2], &s);
+		if (r2 < 0) BAD;
+		if (r <= 0 || !r2) DEAD;
+		var = slots[s].ptr;
+		p = talloc_move(a, &var);
+		if (p && p != slots[s].ptr) { printf("MOVE-RETURNED-OTHER\n"); return; }
+		if (var && var != slots[s].ptr) { printf("MOVE-VARIABLE-GARBLED\n"); return; }
+		printf("mv=%s,%s ", p ? "ptr" : "null", var ? "ptr" : "null");
+		dump(p ? 0 : -1);
+		return;
+	}
 	if (strcmp(w[0], "reparent") == 0 && n == 4) {
 		r = opt_ptr(w[1], &a); r2 = opt_ptr(w[2], &b); r3 = get_slot(w[3], &s);
 		if (r3 < 0) BAD;
